@@ -171,6 +171,10 @@ func gen(r *hx.Rand, n int, tier string, emit func(string), st *hx.Stats) {
 
 // ---- servers (long-lived; every case gets fresh stores) ----
 
+// ListUsers returns a PARTIAL answer without error when its deadline expires (some generated worlds make it
+// run into the deadline on both sides); such answers are reported as "DL" and not compared.
+const luDeadline = 400 * time.Millisecond
+
 type rig struct {
 	ds            storage.OpenFGADatastore
 	cached, plain *server.Server
@@ -189,8 +193,8 @@ func getRigs() map[string]*rig {
 			common := []server.OpenFGAServiceV1Option{
 				server.WithDatastore(ds),
 				server.WithResolveNodeBreadthLimit(1),
-				server.WithListObjectsDeadline(20 * time.Second),
-				server.WithListUsersDeadline(20 * time.Second),
+				server.WithListObjectsDeadline(10 * time.Second),
+				server.WithListUsersDeadline(luDeadline),
 			}
 			if eng == "v2" {
 				common = append(common, server.WithExperimentals("weighted_graph_check"))
@@ -345,10 +349,14 @@ func ask(srv *server.Server, storeID, modelID string, s step, ctxT []fga.Tuple) 
 		if len(ctxT) > 0 {
 			tks = fga.Keys(ctxT)
 		}
+		t0 := time.Now()
 		resp, err := srv.ListUsers(ctx, &openfgav1.ListUsersRequest{StoreId: storeID, AuthorizationModelId: modelID,
 			Object: &openfgav1.Object{Type: typ, Id: id}, Relation: rq.Rel,
 			UserFilters:      []*openfgav1.UserTypeFilter{{Type: s.typ, Relation: s.frel}},
 			ContextualTuples: tks, Context: fga.CtxStruct(rq.Ctx)})
+		if time.Since(t0) > luDeadline*3/4 {
+			return "DL"
+		}
 		if err != nil {
 			return errClass(err)
 		}
@@ -458,6 +466,10 @@ func exec(line string, st *hx.Stats) string {
 				st.Add("ms:"+eng+":"+s.kind+":cached", int(t1.Sub(t0).Milliseconds()))
 				st.Add("ms:"+eng+":"+s.kind+":plain", int(time.Since(t1).Milliseconds()))
 				mark := ""
+				if a == "DL" || b == "DL" {
+					a, b = "DL", "DL"
+					st.Inc("listusers-deadline")
+				}
 				if a != b {
 					st.Inc("mismatch:" + s.kind)
 					// is either side unstable by itself?
